@@ -166,7 +166,7 @@ VMC_HARNESS(ur_cancel, "C14,C19,C02") {
   World w(cfg); Ctl cr, cr2, ci;
   w.start_loop();
   auto sched = w.ctx->get_scheduler();
-  int p[2]; ksim::k_pipe2(p, O_NONBLOCK);
+  int p[2]; ksim::k_pipe2(p, 0);
   {
     io_uring_context::async_read_only_file reader{*w.ctx, p[0]};
     inplace_stop_source ss;
@@ -219,7 +219,7 @@ static void full_body(int k, int feed) {
   World w(cfg); Ctl c[5];
   w.start_loop();
   int p[5][2];
-  for (int i = 0; i < k; ++i) ksim::k_pipe2(p[i], O_NONBLOCK);
+  for (int i = 0; i < k; ++i) ksim::k_pipe2(p[i], 0);
   {
     std::optional<io_uring_context::async_read_only_file> f[5];
     inplace_stop_source ss;
@@ -274,7 +274,7 @@ VMC_HARNESS(ur_cancel_w, "C14,C19,C02") {
   World w(cfg); Ctl cw, cw2, ci;
   w.start_loop();
   auto sched = w.ctx->get_scheduler();
-  int p[2]; ksim::k_pipe2(p, O_NONBLOCK);
+  int p[2]; ksim::k_pipe2(p, 0);
   ksim::k_write(p[1], "XY", 2);
   {
     io_uring_context::async_write_only_file writer{*w.ctx, p[1]};
@@ -307,4 +307,129 @@ VMC_HARNESS(ur_cancel_w, "C14,C19,C02") {
   ksim::k_close(p[0]);
   w.finish();
   vmc::note(cw.d.str() + ">" + cw2.d.str());
+}
+
+// ---- conformance of the ring simulator with the real io_uring ------------------------------------------------------
+// Every sequence of `depth` steps over the alphabet below runs on a real ring and on the simulated one; after each step
+// both are flushed (enter with GETEVENTS, nothing to wait for) and the multisets of (user_data, res) completions must
+// agree.  A step whose user_data is still in flight is skipped (the kernel may pick either of two equal targets).
+// args: [depth]
+#include <linux/time_types.h>
+#include <liburing/io_uring.h>
+#include <sys/syscall.h>
+#include <sys/mman.h>
+#include <sys/eventfd.h>
+#include <poll.h>
+#include <set>
+#include <algorithm>
+extern "C" {
+int __real_eventfd(unsigned, int);
+ssize_t __real_write(int, const void*, size_t);
+int __real_close(int);
+int __real_pipe2(int*, int);
+int __real_munmap(void*, size_t);
+}
+namespace unifex::linuxos {
+int io_uring_setup(unsigned entries, struct io_uring_params* p);
+int io_uring_enter(int fd, unsigned to_submit, unsigned min_complete, unsigned flags, sigset_t* sig);
+}
+namespace {
+struct Ring {
+  bool sim; int fd = -1;
+  unsigned *sq_head, *sq_tail, *sq_mask, *sq_array, *cq_head, *cq_tail, *cq_mask;
+  io_uring_sqe* sqes; io_uring_cqe* cqes;
+  void* maps[3]; size_t lens[3];
+  int ev = -1, pr = -1, pw = -1, nr = -1, nw = -1;
+  struct __kernel_timespec ts{};
+  char rbuf[4]; struct iovec riov{rbuf, 1};
+  char nbuf[4]; struct iovec niov{nbuf, 1};
+  bool setup() {
+    io_uring_params p; std::memset(&p, 0, sizeof p);
+    fd = sim ? unifex::linuxos::io_uring_setup(8, &p) : (int)syscall(__NR_io_uring_setup, 8, &p);
+    if (fd < 0) return false;
+    lens[0] = p.sq_off.array + p.sq_entries * sizeof(unsigned); lens[1] = p.cq_off.cqes + p.cq_entries * sizeof(io_uring_cqe); lens[2] = p.sq_entries * sizeof(io_uring_sqe);
+    maps[0] = mmap(0, lens[0], PROT_READ | PROT_WRITE, MAP_SHARED | MAP_POPULATE, fd, IORING_OFF_SQ_RING);
+    maps[1] = mmap(0, lens[1], PROT_READ | PROT_WRITE, MAP_SHARED | MAP_POPULATE, fd, IORING_OFF_CQ_RING);
+    maps[2] = mmap(0, lens[2], PROT_READ | PROT_WRITE, MAP_SHARED | MAP_POPULATE, fd, IORING_OFF_SQES);
+    if (maps[0] == MAP_FAILED || maps[1] == MAP_FAILED || maps[2] == MAP_FAILED) return false;
+    char* s = (char*)maps[0]; char* c = (char*)maps[1];
+    sq_head = (unsigned*)(s + p.sq_off.head); sq_tail = (unsigned*)(s + p.sq_off.tail); sq_mask = (unsigned*)(s + p.sq_off.ring_mask); sq_array = (unsigned*)(s + p.sq_off.array);
+    cq_head = (unsigned*)(c + p.cq_off.head); cq_tail = (unsigned*)(c + p.cq_off.tail); cq_mask = (unsigned*)(c + p.cq_off.ring_mask); cqes = (io_uring_cqe*)(c + p.cq_off.cqes);
+    sqes = (io_uring_sqe*)maps[2];
+    int pp[2];
+    if (sim) { ev = eventfd(0, EFD_NONBLOCK); pipe2(pp, 0); pr = pp[0]; pw = pp[1]; pipe2(pp, O_NONBLOCK); nr = pp[0]; nw = pp[1]; }
+    else { ev = __real_eventfd(0, EFD_NONBLOCK); __real_pipe2(pp, 0); pr = pp[0]; pw = pp[1]; __real_pipe2(pp, O_NONBLOCK); nr = pp[0]; nw = pp[1]; }
+    return true;
+  }
+  void push(const io_uring_sqe& e) {
+    unsigned t = __atomic_load_n(sq_tail, __ATOMIC_RELAXED), i = t & *sq_mask;
+    sqes[i] = e; sq_array[i] = i;
+    __atomic_store_n(sq_tail, t + 1, __ATOMIC_RELEASE);
+  }
+  int enter(unsigned n) {
+    return sim ? unifex::linuxos::io_uring_enter(fd, n, 0, IORING_ENTER_GETEVENTS, nullptr) : (int)syscall(__NR_io_uring_enter, fd, n, 0, IORING_ENTER_GETEVENTS, nullptr, 8);
+  }
+  std::vector<std::pair<unsigned long long, int>> reap() {
+    std::vector<std::pair<unsigned long long, int>> v;
+    unsigned h = *cq_head, t = __atomic_load_n(cq_tail, __ATOMIC_ACQUIRE);
+    for (; h != t; ++h) v.push_back({cqes[h & *cq_mask].user_data, cqes[h & *cq_mask].res});
+    __atomic_store_n(cq_head, h, __ATOMIC_RELEASE);
+    std::sort(v.begin(), v.end());
+    return v;
+  }
+  void wr(int f, const void* b, size_t n) { if (sim) { (void)!write(f, b, n); } else { (void)!__real_write(f, b, n); } }
+  void teardown() {
+    for (int i = 0; i < 3; ++i) munmap(maps[i], lens[i]);
+    int fds[6] = {ev, pr, pw, nr, nw, fd};
+    for (int f : fds) { if (sim) close(f); else __real_close(f); }
+  }
+};
+}  // namespace
+VMC_SEQ_HARNESS(uring_conf, "C14") {
+  int depth = vmcrt::arg(0, 3);
+  ksim::Config cfg; cfg.uring_sq_entries = 8; cfg.pipe_capacity = 4;
+  ksim::reset(cfg);
+  Ring S{true}, R{false};
+  if (!R.setup()) { vmc::note("real-io_uring-unavailable"); return; }
+  if (!S.setup()) vmcrt::fail("!", "uring-conformance", "simulated io_uring_setup failed");
+  timespec now; clock_gettime(CLOCK_MONOTONIC, &now);
+  S.ts.tv_sec = R.ts.tv_sec = now.tv_sec + 100000;
+  std::set<unsigned long long> inflight;
+  std::string trace;
+  for (int i = 0; i < depth; ++i) {
+    int op = vmc::choose(10);
+    static const unsigned long long ud_of[10] = {1, 0, 2, 3, 4, 5, 0, 6, 7, 8};
+    if (ud_of[op] && inflight.count(ud_of[op])) { trace += "-"; continue; }
+    auto step = [&](Ring& r) {
+      io_uring_sqe e; std::memset(&e, 0, sizeof e);
+      bool submit = true;
+      switch (op) {
+        case 0: e.opcode = IORING_OP_POLL_ADD; e.fd = r.ev; e.poll_events = POLLIN; e.user_data = 1; break;
+        case 1: { uint64_t one = 1; r.wr(r.ev, &one, 8); submit = false; break; }
+        case 2: e.opcode = IORING_OP_ASYNC_CANCEL; e.fd = -1; e.addr = 1; e.user_data = 2; break;
+        case 3: e.opcode = IORING_OP_TIMEOUT; e.addr = (unsigned long long)(uintptr_t)&r.ts; e.len = 1; e.timeout_flags = IORING_TIMEOUT_ABS; e.user_data = 3; break;
+        case 4: e.opcode = IORING_OP_TIMEOUT_REMOVE; e.addr = 3; e.user_data = 4; break;
+        case 5: e.opcode = IORING_OP_READV; e.fd = r.pr; e.addr = (unsigned long long)(uintptr_t)&r.riov; e.len = 1; e.user_data = 5; break;
+        case 6: r.wr(r.pw, "q", 1); submit = false; break;
+        case 7: e.opcode = IORING_OP_ASYNC_CANCEL; e.fd = -1; e.addr = 5; e.user_data = 6; break;
+        case 8: e.opcode = IORING_OP_NOP; e.user_data = 7; break;
+        default: e.opcode = IORING_OP_READV; e.fd = r.nr; e.addr = (unsigned long long)(uintptr_t)&r.niov; e.len = 1; e.user_data = 8; break;
+      }
+      if (submit) r.push(e);
+      int rc = r.enter(submit ? 1 : 0);
+      if (rc < 0) return std::vector<std::pair<unsigned long long, int>>{{~0ull, -errno}};
+      r.enter(0);   // a second entry lets the real kernel run completions queued as task work by the first
+      return r.reap();
+    };
+    auto a = step(S), b = step(R);
+    trace += std::to_string(op) + " ";
+    auto show = [](const std::vector<std::pair<unsigned long long, int>>& v) { std::string s; for (auto& x : v) s += std::to_string(x.first) + ":" + std::to_string(x.second) + ","; return s; };
+    if (a != b) vmcrt::fail("!", "uring-conformance", ("completions differ: simulated [" + show(a) + "] real [" + show(b) + "] after steps: " + trace).c_str());
+    if (ud_of[op]) inflight.insert(ud_of[op]);
+    for (auto& x : a) inflight.erase(x.first);
+  }
+  S.teardown(); R.teardown();
+  std::string l = ksim::leaks();
+  if (!l.empty()) vmcrt::fail("!", "uring-conformance", ("simulated resources left: " + l).c_str());
+  vmc::note("conforms");
 }
